@@ -2,6 +2,10 @@ package lines
 
 import (
 	"context"
+	"os"
+	"syscall"
+	"time"
+	"unsafe"
 
 	"github.com/cube2222/octosql/execution"
 	"github.com/cube2222/octosql/execution/files"
@@ -46,6 +50,48 @@ func verifSplit(content, sep string) []string {
 	return out
 }
 
+// verifSetStdinChunked: content on stdin. Under the engine the harness parameter STDIN_CHUNKS=1
+// makes every read of stdin return an arbitrary non-empty part of what is left (forked, nd values
+// stdin.chunk#k = part length - 1, drawn only when more than one byte is left), so that a
+// separator can straddle two fills of the bufio.Scanner buffer with tiny content. A native replay
+// reproduces exactly those parts: a feeder goroutine writes one part into a pipe and waits until
+// the reader has drained it (FIONREAD == 0) before it writes the next one.
+func verifSetStdinChunked(content []byte) {
+	if zzverif.Symbolic() || zzverif.Param("STDIN_CHUNKS") != 1 {
+		zzverif.SetStdin(content)
+		return
+	}
+	var parts [][]byte
+	for rest := content; len(rest) > 0; {
+		n := 1
+		if len(rest) > 1 {
+			n = 1 + zzverif.Choice("stdin.chunk", len(rest))
+		}
+		parts = append(parts, append([]byte(nil), rest[:n]...))
+		rest = rest[n:]
+	}
+	r, w, err := os.Pipe()
+	if err != nil {
+		panic(err)
+	}
+	fd := r.Fd()
+	go func() {
+		for _, part := range parts {
+			w.Write(part)
+			for {
+				var avail int32
+				syscall.Syscall(syscall.SYS_IOCTL, fd, 0x541B /* FIONREAD */, uintptr(unsafe.Pointer(&avail)))
+				if avail == 0 {
+					break
+				}
+				time.Sleep(50 * time.Microsecond)
+			}
+		}
+		w.Close()
+	}()
+	os.Stdin = r
+}
+
 func verifContains(content, sep string) bool {
 	for i := 0; i+len(sep) <= len(content); i++ {
 		if content[i:i+len(sep)] == sep {
@@ -68,7 +114,7 @@ func VerifC23Lines() {
 		opts["sep"] = sep
 	}
 	files.VerifResetStdin()
-	zzverif.SetStdin([]byte(content))
+	verifSetStdinChunked([]byte(content))
 	ctx := context.Background()
 	im, schema, err := Creator(ctx, "stdin", opts)
 	zzverif.Assert(err == nil, "creator-no-error")
